@@ -53,7 +53,7 @@ def run_k(run, tier, seed, drv):
     from checks.C20 import build_yr
     yr, yrc, yout, ydt = build_yr(drv, 400 if tier == "quick" else 2400)   # seconds when the cache is warm
     if tier == "quick":
-        args = ["--seed", seed, "--n", 1200, "--n-proc", 400, "--n-stage", 400, "--opts", 2, "--behaviour-every", 3]
+        args = ["--seed", seed, "--n", 1100, "--n-proc", 320, "--n-stage", 420, "--opts", 2, "--behaviour-every", 3]
     else:
         args = ["--seed", seed, "--n", 24000, "--n-proc", 5000, "--n-stage", 6000, "--opts", 4]
     if yr:
